@@ -297,6 +297,20 @@ pub trait Shredder: Default {
     /// When [`Shredder::shred`] is called, how many coding shreds will be produced.
     const CODING_OUTPUT_SHREDS: usize;
 
+    /// Returns `true` iff `shred` has the type (data or coding) this shredder gives
+    /// to the shred at its index, i.e. data iff the index is below
+    /// [`Shredder::DATA_OUTPUT_SHREDS`].
+    ///
+    /// The type is part of the wire format but covered neither by the leader's signature
+    /// nor by the Merkle tree, so whoever passes a shred on can flip it.
+    /// A shred failing this check was therefore altered in transit (or by its sender),
+    /// it says nothing about the leader: consumers should drop it, as [`Shredder::deshred`]
+    /// would refuse the whole slice with [`DeshredError::InvalidLayout`].
+    #[must_use]
+    fn has_expected_type(shred: &Shred) -> bool {
+        shred.is_data() == (*shred.payload().shred_index < Self::DATA_OUTPUT_SHREDS)
+    }
+
     /// Splits the given slice into [`TOTAL_SHREDS`] shreds.
     ///
     /// Produces [`Self::DATA_OUTPUT_SHREDS`] data shreds and
